@@ -26,28 +26,55 @@ class C12(Check):
     per_case_timeout = 10
     technique = ('machine-checked proof in Coq about a hand-written Gallina model; model tied to the code by an '
                  'extracted-model vs implementation correspondence check')
-    level_text = ('Theorems in Coq, for every script of slot behaviours, every nesting and every fuel: the model of Callback '
-                  '(slot lists with connected/connecting/disconnected states, dirty flag, activation chain with invalidation, '
-                  'both destructor loops; the code after fixes/C12) run in lock step with the reference object (live connections '
-                  'with sequence numbers, watermark of the outermost emission, one cursor per emission) never touches a destroyed '
-                  'object, produces exactly the same invocation log, and ends in a state where both sides\' bookkeeping equals the '
-                  'live connection list. The model is tied to the code by running extracted model, extracted spec and the '
-                  'ASan/UBSan build of the working tree on the same scripts (invocation logs, both sides\' lists, dirty/activation flags).')
-    level_note = ('Trusted: Coq kernel, the reference object (CallbackSpec.v), extraction + OCaml driver, harness, generators. '
-                  'Clients never hand a destroyed emitter/listener to the library (such script actions are skipped on both sides). '
-                  'Maps keyed by pointer are modelled as maps keyed by object id; the destructor loops are modelled in id order '
-                  '(their iterations touch disjoint data). Objects are not re-created at the address of a destroyed one. '
-                  'The theorems are about the model; the tie to the code is differential.')
+    level_text = ('Coq theorems (19, closed under the global context) about the Gallina model of Callback (slot lists with '
+                  'connected/connecting/disconnected states, dirty flag, activation chain with invalidation, both search loops, '
+                  'both destructor loops, a liveness flag on every object) and the reference object (live connections with serial '
+                  'numbers, watermark of the outermost emission, one cursor per emission), for ALL histories of '
+                  'connect/disconnect/emit/destroy, all slot scripts (universally quantified; a script may connect, disconnect, '
+                  're-emit, destroy listeners and emitters, itself included), every nesting depth limit and every fuel: '
+                  '(1) refinement relation R holds initially and after every top-level operation and whenever a slot returns '
+                  '(C12_refinement_init, C12_step_refines, C12_nested_refines); R implies both sides\' bookkeeping equals the live '
+                  'connections: emitter side = connection list in order, listener side = same multiplicities, receivers alive, '
+                  'nothing refers to a destroyed object (C12_emitter_side_exact, C12_listener_side_exact, '
+                  'C12_related_states_are_consistent, C12_bookkeeping_after_every_history); (2) the model\'s invocation log of every '
+                  'history equals the reference object\'s and the model never touches a destroyed object '
+                  '(C12_logs_equal_reference, C12_never_touches_dead_object, C12_invoked_slot_is_live; the reference turn rule is '
+                  'characterised by C12_turn_sound/oldest/none_complete); (3) after the outermost emission no '
+                  'disconnected/connecting entry, activation or dirty flag is left (NoResidue in '
+                  'C12_bookkeeping_after_every_history); fuel: every history completes from some fuel on and finished runs do not '
+                  'depend on fuel (C12_enough_fuel_exists, C12_fuel_irrelevant_*). The model is tied to the code by running the '
+                  'extracted model (a tracing interpreter proved equal to the proved one, C12_trace_erasure), the extracted '
+                  'reference object and the ASan/UBSan build of the working tree on the same scripts and comparing invocation '
+                  'logs, both sides\' lists, dirty/activation flags after every top-level operation and the emitting signal\'s slot '
+                  'list with states, dirty flag and invalidated flags of the activation chain at every slot entry and exit.')
+    level_note = ('Trusted: Coq kernel, the reference object (CallbackSpec.v: the property text as an executable object), extraction + '
+                  'OCaml driver, harness, generators. Validated by correspondence only (not proved): that CallbackModel.v mirrors '
+                  'Callback.hpp/Callback.cpp; the iterator position inside emit() is not observable from the harness (only its '
+                  'effect, the invocation log). Modelled as input: slot behaviours (scripts) and the client-side depth limit maxd '
+                  '(emissions nested deeper are skipped by the client on both sides; without it a self-re-emitting slot recurses '
+                  'forever in the library as well). Clients never hand a destroyed emitter/listener to the library (such script '
+                  'actions are skipped on both sides). Maps keyed by pointer are modelled as maps keyed by object id; the '
+                  'destructor loops are modelled in id order (their iterations touch disjoint data). Objects are not re-created at '
+                  'the address of a destroyed one. disconnect on a listener that has no entry for the emitter dereferences the '
+                  'map\'s end item (an empty list member): modelled as a no-op, exercised by the edge stream. Only the 0-argument '
+                  'emit template is driven (the nine templates are textual copies).')
     rule = ('cases = programs over 2-3 emitters x 2-3 listeners x up to 4 slots x 1-2 signals whose slots run scripted actions '
             '(connect/disconnect/emit/destroy listener/destroy emitter, also of themselves), nesting depth <= 4; stream exh = all '
             'action sequences of length <= 2 (quick) / <= 3 (thorough) over a 12-action alphabet executed by a slot inside one '
-            'emission, under 2 surrounding configurations, followed by re-emission and destruction of every object; stream random = '
-            'random scripts and top-level histories; stream edge = actions on destroyed objects, unknown signals, disconnect of '
-            'never-connected slots, duplicate connections. A case is non-trivial when at least one slot with a non-empty script was '
-            'invoked (re-entrancy actually exercised); distinct = distinct op text')
+            'emission, under 2 surrounding configurations, followed by re-emission and destruction of every object; stream dcd = '
+            'all words of length <= 4 / <= 6 over {disconnect, connect} x {own slot, pending slot} inside one emission, with and '
+            'without a nested re-emission (case split of unlink_slot: k-th disconnect skips k-1 entries already marked); stream '
+            'nest = recursive re-emission to the depth limit + a second signal of the same emitter + a slot pending in every '
+            'nested emission, actor words of length <= 2 / <= 3 over a 12-action alphabet (destroy listener / emitter / '
+            'disconnect / connect / emit) run innermost first, 2 slot orders, 2 depth limits (case splits of emit_end, '
+            'invalidated and both destructors); stream random = random scripts and top-level histories; stream edge = actions on '
+            'destroyed objects, unknown signals, disconnect of never-connected slots, duplicate connections. A case is '
+            'non-trivial when at least one slot with a non-empty script was invoked (re-entrancy actually exercised); distinct = '
+            'distinct op text')
     assumptions = ['clients never pass a destroyed emitter or listener to connect/disconnect/emit (skipped in scripts)',
                    'no object is created at the address of a destroyed one while stale map keys exist',
-                   'pointer-keyed maps modelled as id-keyed maps; destructor loops in id order (iterations are independent)']
+                   'pointer-keyed maps modelled as id-keyed maps; destructor loops in id order (iterations are independent)',
+                   'slot behaviours are finite scripts; the client bounds the nesting depth of emissions (maxd)']
 
     def nontrivial(self, case, obs):
         scripted = set()
@@ -188,10 +215,18 @@ class C12(Check):
         out = []
         out.append(Stream('exh', self.exh_cases(3 if thorough else 2), exhaustive=True,
                           note='all action sequences of length <= %d over a 12-action alphabet inside one emission, 2 surrounding configurations' % (3 if thorough else 2)))
-        out.append(Stream('dcd', self.dcd_cases(6 if thorough else 5), exhaustive=True,
-                          note='all words of length <= %d over {disconnect, connect} x {own slot, pending slot} inside one emission, with and without a nested re-emission' % (6 if thorough else 5)))
-        out.append(Stream('nest', self.small_enough(self.nest_cases(3 if thorough else 2)), exhaustive=True,
-                          note='recursive re-emission to the depth limit + second signal of the same emitter + pending slot; actor words of length <= %d over a 12-action alphabet, 2 slot orders, 2 depth limits' % (3 if thorough else 2)))
+        # chunks of <= 300 cases: on a broken tree nearly every case of these streams ends in a sanitizer report, and the
+        # runner gives up on a stream after 400 restarts
+        def chunks(name, cases, note):
+            k = 300
+            parts = [cases[i:i + k] for i in range(0, len(cases), k)]
+            return [Stream(name if len(parts) == 1 else '%s-%d' % (name, j + 1), part, exhaustive=True, note=note) for j, part in enumerate(parts)]
+        dl = 6 if thorough else 4
+        out += chunks('dcd', self.dcd_cases(dl),
+                      'all words of length <= %d over {disconnect, connect} x {own slot, pending slot} inside one emission, with and without a nested re-emission' % dl)
+        nl = 3 if thorough else 2
+        out += chunks('nest', self.small_enough(self.nest_cases(nl)),
+                      'recursive re-emission to the depth limit + second signal of the same emitter + pending slot; actor words of length <= %d over a 12-action alphabet, 2 slot orders, 2 depth limits' % nl)
         ec = self.edge_cases(rng)
         out.append(Stream('edge', ec[:10] + self.small_enough(ec[10:]), note='destroyed objects, unknown signals, never-connected slots, duplicates'))
         out.append(Stream('random', self.small_enough([self.random_case(rng) for _ in range(6000 if thorough else 1200)]),
